@@ -10,6 +10,41 @@ def fresh_name(hint):
     return f"{hint}!{next(_counter)}"
 
 
+def fresh_mark():
+    """Names created from now on have a serial >= the returned mark (see free_symbols)."""
+    n = next(_counter)
+    return n
+
+
+def free_symbols(term, _memo=None):
+    """Names of the uninterpreted constants / functions occurring free in a z3 term."""
+    out = set()
+    seen = set()
+    stack = [term]
+    while stack:
+        t = stack.pop()
+        i = t.get_id()
+        if i in seen:
+            continue
+        seen.add(i)
+        if z3.is_quantifier(t):
+            stack.append(t.body())
+            continue
+        if z3.is_app(t):
+            d = t.decl()
+            if d.kind() == z3.Z3_OP_UNINTERPRETED:
+                out.add(d.name())
+            stack.extend(t.children())
+    return out
+
+
+def serial_of(name):
+    try:
+        return int(name.rsplit("!", 1)[1])
+    except (IndexError, ValueError):
+        return -1
+
+
 class Val:
     __slots__ = ("ty", "parts")
 
@@ -153,10 +188,19 @@ def coerce(v, ty):
         return opaque_const("empty:" + v.ty.name)
     if ty.kind == "name" and v.ty.kind == "opaque":
         return Val(T.NAME, [_name_of_opaque()(v.t)])
+    if ty.kind == "str" and v.ty.kind == "name":
+        return Val(T.STR, [_str_of_name()(v.t)])       # the text of an identifier: an uninterpreted function Name -> String
     raise UnsupportedError(f"cannot use a value of type {v.ty} where {ty} is declared")
 
 
 _noo = []
+_son = []
+
+
+def _str_of_name():
+    if not _son:
+        _son.append(z3.Function("str_of_name", T.NameSort, z3.StringSort()))
+    return _son[0]
 
 
 def _name_of_opaque():
